@@ -141,13 +141,13 @@ theorem bluestein_wrap (n M L : Nat) (α : R) (k j : Nat) (hk : k < M) (hj : j <
   rw [gen_czt_glue]; exact cztH_wrap n M L α k j hk hj hL
 
 /-- the contract under which `scipy.fft` is used: `ifft(fft x · fft y)` is the length-`L` circular convolution -/
-theorem conv_via_dft' (he : IsChar e) (hf : IsFaithful e) (L : Nat) (hL : 0 < L) (x y : Nat → K) (k : Nat) :
+theorem conv_via_fft (he : IsChar e) (hf : IsFaithful e) (L : Nat) (hL : 0 < L) (x y : Nat → K) (k : Nat) :
     idftL e L (fun q => dftL e L x q * dftL e L y q) k = circConv L x y k :=
   conv_via_dft he hf L hL x y k
 
 /-- `czt2` as computed by the current source (wiring, per-axis chirp constants, index glue, `fft2` pipeline) equals
 `dft2` sample for sample — including the phase — for every shape, output size, per-axis `Q`, shift, FFT lengths -/
-theorem czt2_eq_mdft2' (he : IsChar e) (hf : IsFaithful e) (m n M N K' L : Nat) (Qy Qx s0 s1 : R)
+theorem czt_eq_mdft (he : IsChar e) (hf : IsFaithful e) (m n M N K' L : Nat) (Qy Qx s0 s1 : R)
     (f : Array (Array K)) (k l : Nat) (hm : 0 < m) (hn : 0 < n) (hk : k < M) (hl : l < N)
     (hK : m + M ≤ K' + 1) (hL : n + N ≤ L + 1) :
     rd2 (czt2 e nrm cztRowWiring cztColWiring (cztGlueGen m M K') (cztGlueGen n N L) (m, n) (M, N) (K', L)
@@ -169,7 +169,7 @@ theorem czt2_eq_phase_mul_spec (he : IsChar e) (hf : IsFaithful e) (m n M N K' L
           (cztRowAlpha (m : R) (n : R) Qy Qx) (cztColAlpha (m : R) (n : R) Qy Qx) (s0, s1) f) k l
       = (shiftPhase e M (alphaOf m Qy) s1 k * shiftPhase e N (alphaOf n Qx) s0 l)
           * spec2 e nrm m n M N (alphaOf m Qy) (alphaOf n Qx) s1 s0 (rd2 f) k l := by
-  rw [czt2_eq_mdft2' nrm he hf m n M N K' L Qy Qx s0 s1 f k l hm hn hk hl hK hL, mdft_eq_phase_mul_spec nrm he]
+  rw [czt_eq_mdft nrm he hf m n M N K' L Qy Qx s0 s1 f k l hm hn hk hl hK hL, mdft_eq_phase_mul_spec nrm he]
 
 /-- `iczt2 = conj ∘ czt2 ∘ conj` is `idft2`: phase × the textbook sum with the reflected kernel `e(−t)` -/
 theorem iczt_eq_inverse_spec (he : IsChar e) (hf : IsFaithful e) (cj : K →+* K) (hc : IsConj cj e nrm)
@@ -215,7 +215,7 @@ theorem routes_agree (he : IsChar e) (hf : IsFaithful e) (m n M' N' K' L : Nat) 
   have hmd := mdft_eq_phase_mul_spec nrm he m n M' N' Qy Qx 0 0 (rd2 f) k l
   rw [shiftPhase_zero he, shiftPhase_zero he, one_mul, one_mul, hay, hax] at hmd
   constructor
-  · rw [czt2_eq_mdft2' nrm he hf m n M' N' K' L Qy Qx 0 0 f k l hm hn hk hl hK hL, hmd, hspec]
+  · rw [czt_eq_mdft nrm he hf m n M' N' K' L Qy Qx 0 0 f k l hm hn hk hl hK hL, hmd, hspec]
   · rw [hmd, hspec]
 
 /-! ## executor caches: no dependence on history -/
